@@ -170,6 +170,10 @@ def compare(exp, obs):
     return bad
 
 
+def risky(scen):
+    return scen["side"]["what"] == "drop" or any(b["b"] in ("dfail", "never") for b in scen["beh"].values())
+
+
 def nontrivial(scen):
     beh = scen["beh"]
     return any(b["b"] in ("dfire", "dfail", "never") for b in beh.values()) or scen["side"]["what"] != "none"
@@ -198,6 +202,7 @@ def run(tier, pid="C14"):
         "effect is present; distinct by scenario.",
     )
     rep.assume("virtual-time reactor harness/vreactor.py (task.Clock + run/crash/stop); no same-instant ties: delays even, timeout/interrupt odd")
+    rep.assume("automatic garbage collection is off while scenarios run and a collection is forced between scenarios: a failed Deferred left by one test and collected during the next would (legitimately) fail that next test")
     rep.assume("which non-success outcome is reported is not fixed by C14 except timeout/interrupt => error")
     rep.assume("a stop request still pending when the test finishes is itself a left-over delayed call (=> error)")
     cfgs = ["ar_quick.cfg"] if tier == "quick" else ["ar_quick.cfg", "ar_exp_t.cfg"]
@@ -205,6 +210,8 @@ def run(tier, pid="C14"):
         r = tlc.run_tlc("twisted", "MCAsyncRunTest", "ar_thorough.cfg", coverage=True, timeout=3000, workers=8)
         tlc.require_ok(r, "C14 ar_thorough.cfg")
         rep.add_tlc(r, "ar_thorough.cfg")
+    gc.collect()
+    gc.disable()
     seen = set()
     flags = [(True, True), (False, True), (True, False), (False, False)]
     n = 0
@@ -222,8 +229,14 @@ def run(tier, pid="C14"):
             n += 1
             # logging suppression / capture on or off: rotate deterministically
             scen["suppress"], scen["store"] = flags[n % 4]
-            gc.collect() if n % 500 == 0 else None
             obs = observe(scen)
+            # A failed Deferred left behind by one scenario must not be garbage-collected (and logged as
+            # "Unhandled error in Deferred") while the NEXT scenario's error observer is installed: collect
+            # between scenarios, outside any test, with automatic collection off during the runs.
+            if n % 1000 == 0:
+                gc.collect()
+            elif risky(scen) or n % 50 == 0:
+                gc.collect(0)
             bad = compare(exp, obs)
             rep.case(
                 sample={"scenario": scen, "expected": exp} if n % 3001 == 5 else None,
